@@ -249,3 +249,31 @@ func validateCfg(c config.Config) (res string) {
 	}
 	return ""
 }
+
+// kubeDoc renders a config object as the Kubernetes object it would be (ambient cases only; the kinds the
+// ambient index watches).
+func (c cfgDesc) kubeDoc() string {
+	switch c.Kind {
+	case "ServiceEntry", "WorkloadEntry", "PeerAuthentication", "AuthorizationPolicy":
+	default:
+		return ""
+	}
+	sch, ok := schemaFor(c.Kind)
+	if !ok {
+		return ""
+	}
+	meta := map[string]any{"name": c.Name, "namespace": c.Ns}
+	if len(c.Labels) > 0 {
+		meta["labels"] = c.Labels
+	}
+	var spec any
+	if err := json.Unmarshal([]byte(c.JSON), &spec); err != nil {
+		return ""
+	}
+	doc := map[string]any{"apiVersion": sch.Group() + "/" + sch.Version(), "kind": c.Kind, "metadata": meta, "spec": spec}
+	b, err := json.Marshal(doc)
+	if err != nil {
+		return ""
+	}
+	return string(b)
+}
